@@ -148,24 +148,35 @@ func (p *parser) parseMessageText() (dataItem ast.ItemNode, ok bool) {
 	p.pos += lengthBytesCount
 	verifItem(p.pos, int(formatCode), lengthBytesCount, length)
 
+	if formatCode != formatCodeList && length > len(p.input)-p.pos {
+		// the declared payload is longer than the remaining input;
+		// checked before anything is allocated for it
+		return ast.NewEmptyItemNode(), false
+	}
+
 	switch formatCode {
 	case formatCodeList:
-		values := make([]interface{}, length)
+		// The list grows as its elements are parsed; it is not allocated by
+		// the declared element count, which the input may not honour.
+		values := []interface{}{}
 		for i := 0; i < length; i++ {
-			values[i], ok = p.parseMessageText()
+			value, ok := p.parseMessageText()
 			if !ok {
 				return ast.NewEmptyItemNode(), false
 			}
+			values = append(values, value)
 		}
 		return ast.NewListNode(values...), true
 
 	case formatCodeASCII:
-		var str string
-		for _, v := range p.input[p.pos : p.pos+length] {
-			str += string(v)
+		payload := p.input[p.pos : p.pos+length]
+		for _, v := range payload {
+			if v > 127 {
+				return ast.NewEmptyItemNode(), false
+			}
 		}
 		p.pos += length
-		return ast.NewASCIINode(str), true
+		return ast.NewASCIINode(string(payload)), true
 
 	case formatCodeBinary:
 		values := make([]interface{}, length)
